@@ -1,6 +1,6 @@
 //! C05 — Merkle tree, root hash and signature match an independent reference.
 
-use crate::framework::{Ctx, Spec, Tier};
+use crate::framework::{Ctx, Spec};
 use crate::gen;
 use crate::ops::{self, CacheMode, Fail, Op, Sut};
 use crate::props::c03;
